@@ -275,6 +275,11 @@ class Program:
     def find_function(self, target):
         """target: 'file.py::Qual.name' | 'file.py::func' | + '.setter' / '.getter' / '.<parent_getter>'
         and nested functions as 'file.py::Outer.method/<inner>'"""
+        if target.startswith("mro:"):
+            # "mro:Class.method": the method an instance of Class actually runs (own or inherited)
+            cname, _, mname = target[4:].rpartition(".")
+            ci = self.classes.get(cname)
+            return ci.lookup(mname) if ci is not None else None
         file, _, qual = target.partition("::")
         inner = None
         if "/" in qual:
